@@ -53,6 +53,8 @@ import happysimulator.core.simulation  # noqa: E402,F401
 os.environ.setdefault("HV_SERIAL", "1")
 
 TICK = 125_000_000  # ns; 1/8 s, so `yield ticks/8` is exact in float and in int(delay * 1e9)
+# restrictions P1-P3 of the pool-engine family lifted (set when the tree carries fixes/C09-pool-abandoned-waiter.diff)
+POOL_LIFT = os.environ.get("HV_C09_POOL_LIFT", "0") == "1"
 SPIN_LIMIT = 300    # watchdog: resumptions of one blocked process before it gives up
 END_NS = 10**15
 CALL_OPS = {"acq", "try", "acqr", "acqw", "tryr", "tryw", "wait"}
@@ -101,12 +103,18 @@ class C09(core.Property):
             "1–3 ticks, in 15% the real ReduceCapacity fault with 1–2 possibly overlapping windows and integral effective capacities); sync-direct / sync-engine = the same for "
             "Mutex, Semaphore(1–4), RWLock(max_readers None/1/2/3), Barrier(1–4 parties) incl. malformed releases, reset/abort; "
             "cond-engine = consumers/producers on Condition+Mutex; pool-engine = 2–10 workers on ConnectionPool(max 1–3, set-up latency "
-            "0–1 s, timeout 0.5–2 s) incl. arrivals during set-up, timeouts, double release, second cycle; conc-direct = ≤50 acquire/release/"
+            "0–1 s, timeout 0.5–2 s) incl. arrivals during set-up, timeouts, double release, second cycle; in 55% of the pool cases the rest of the "
+            "pool's life: idle-timeout closing (idle_timeout 1–64 ticks, the events release() returns are scheduled), min_connections 0–max with 1–2 warm-up "
+            "processes racing the workers, and 1–3 acquirers abandoned mid-acquire — the generator inside acquire() closed by a harness entity, or its "
+            "entity crashed by a real CrashNode fault so that the engine drops the continuation — aimed at the set-up window (both ends included), "
+            "the queued phase, the instant of a hand-off, the holding phase (restrictions P1–P3, `_pool_restrict`, until fixes/C09-pool-abandoned-waiter.diff "
+            "is in the tree: such cases get max >= workers + min so that nobody queues); conc-direct = ≤50 acquire/release/"
             "set_limit calls on Fixed/Dynamic/WeightedConcurrency; (one case in six, hv/props/c09_extra.py) bulkhead-engine = 2–8 (thorough 12) requests, "
             "max_concurrent 1–3, wait queue 0–3, wait time None/1–4 ticks, hold 0–3 ticks or immediate return; tpool-engine = 2–12 tasks, 1–3 workers, queue capacity "
             "None/0–3, processing 0–3 ticks; preempt-direct = 3–40 acquire/release calls, capacity 1–4, amounts 1–cap plus malformed, priorities 0–3 with ties, preempt "
             "flag, double release, release of a preempted / not-yet-given / unknown grant. A case is non-trivial when at "
-            "least one caller was queued and at least one was woken/handed over (pool: at least one caller waited); distinct = distinct case content")
+            "least one caller was queued and at least one was woken/handed over (pool: at least one caller waited, an abandonment changed the pool, "
+            "an idle connection was closed or a warm-up connection was parked); distinct = distinct case content")
     trusted_base = [
         "hv/props/c09_extra.py adapters: Bulkhead and ThreadPool are subclassed only to log public counters around the public handle_event / handle_queued_event; "
         "the handle_event of ThreadPool.queue and ThreadPool.driver (public properties) is wrapped per instance; which request a _bh_response / _bh_timeout delivery "
@@ -120,6 +128,12 @@ class C09(core.Property):
         "sync/pool engine families: which callers a release woke is inferred from the public waiters counter (the first k of the harness's "
         "arrival-ordered pending list) and confirmed by which process is then seen resuming; sync direct family: by polling the blocked generators with next()",
         "granted-vs-queued of a blocking sync call is read from the public waiters counter right after the first segment",
+        "pool-engine: the handle_event of the pool entity is wrapped per instance to log `_pool_idle_timeout` deliveries (connection id and expected_last_used "
+        "are read from the event's context metadata; closed / kept / stale from total_connections and the returned events) and the segments of the warm-up "
+        "generator; an abandonment is produced by closing the generator acquire() returned (harness killer entity) or by a CrashNode fault on the worker entity "
+        "(the dropped process is finalised by CPython reference counting at the instant its continuation is discarded; the worker's GeneratorExit handler "
+        "closes the acquire generator and logs the public counters before / after); what the abandonment did (rollback / dequeued / passed on / nothing) "
+        "is inferred from those counters; whether a queued call helped itself (poll -> creating / idle) from pending_requests and total_connections",
     ]
     assumptions = [
         "PreemptibleResource grants at once when the amount fits, even past queued higher-priority waiters, like Resource; the Spec accepts this",
@@ -138,10 +152,16 @@ class C09(core.Property):
                   "<comp>_trace_satisfies_spec for resource, mutex, semaphore, rwlock, barrier, condition, preemptible resource: no hypothesis on the operation list "
                   "(every interleaving, malformed calls included)",
                   "barrier_trips_exactly_at_nth_arrival: the reachable state is not broken (a broken barrier rejects every wait)",
-                  "pool_trace_satisfies_spec: the operation list is a schedule of generator segments with times, and Pool.SchedOk timeoutNs holds (decidable): no step "
-                  "answers `bad` (`made` only while a set-up is in flight, no `timeout` of a call that was already handed a connection), the id of a new `acq` is not "
-                  "currently waiting or handed (implied by pairwise distinct call ids: pool_trace_satisfies_spec_distinct), a `timeout id` only for a call that queued and "
-                  "not earlier than timeoutNs after its acq (the engine's timer); polls of calls that never queued, repeated timeouts, double releases are allowed",
+                  "pool_trace_satisfies_spec (max timeoutNs min idleNs, min <= max): the operation list is a timed schedule of generator segments, release calls, "
+                  "abandonments, idle-timeout deliveries and warm-up segments, and Pool.SchedOk timeoutNs idleNs holds (decidable): no step answers `bad` (`made id` only "
+                  "while call id's set-up is in flight, `wmade` only while a warm-up set-up is, no `timeout` of a call that was already handed a connection), the id of a "
+                  "new `acq` is not currently waiting or handed (implied by pairwise distinct call ids: pool_trace_satisfies_spec_distinct), a `timeout id` only for a call "
+                  "that queued, not earlier than timeoutNs after its acq (the engine's timer) and not while it is the first queued call with capacity free (the code takes "
+                  "the capacity at that very poll instead of raising; a decided example shows the judge rejecting the model otherwise), an `idleCheck c e` delivery not "
+                  "earlier than e + idleNs (the event is scheduled for that instant); polls of calls that never queued, repeated timeouts, double releases, abandonments "
+                  "of calls in any phase or in none are allowed",
+                  "pool_head_not_grantable: the op list consists of the classic segments (acq / made / poll / timeout / rel); with abandonments or warm-up capacity can come "
+                  "back while calls are queued (decided counterexample), then pool_head_helps_itself applies",
                   "limiter_trace_satisfies_spec: Conc.Start s0 (active = 0, 0 <= limit, dynamic: 0 <= min, 0 <= max — implied by what the constructors enforce, "
                   "limiter_trace_satisfies_spec_constructed) and set_limit is called on the dynamic limiter only (the others have no such method)",
                   "bulkhead_trace_satisfies_spec: stated over the driver's schedule lines (req/start/done/resp/tmo/fin with times; Bulkhead.finalSt_eq_run ties them to the "
@@ -177,7 +197,12 @@ class C09(core.Property):
         "not modelled": "ThreadPool with a LIFO or priority queue_policy, user completion hooks on requests sent through a Bulkhead, a Bulkhead in front of a "
                         "QueuedResource target (fixes/C09-extra-bulkhead-queued-target.md: the permit is returned when the target enqueues, not when it finishes), "
                         "PreemptibleResource inside an engine",
-        "pool idle-timeout closing, warm-up, close_all": "not modelled (the harness drops the idle-timeout events)",
+        "pool close_all": "not modelled; idle-timeout closing, warm-up and abandoned acquirers are (Pool.lean ops abandon / idleCheck / warm / wmade); the judge does not "
+                          "demand that a due idle check closes (`kept` / `stale` answers are accepted: keeping a connection is no violation of C09), only that a close "
+                          "hits an idle connection in the idle session the timer was armed for, not early, not below min_connections, and never one in use",
+        "pool, abandoned acquirers": "model and judge describe /repo with fixes/C09-pool-abandoned-waiter.diff (abandoned queued caller leaves the queue and passes a "
+                                     "handed-over connection on; the first queued call helps itself to capacity that came back without a release); until the patch is "
+                                     "applied the generator keeps those situations out (P1–P3) and the three witnesses wait in corpus/C09/pending/",
     }
     variants = ["repaired"]
 
@@ -434,8 +459,61 @@ class C09(core.Property):
             if rng.random() < 0.15:
                 w["again"] = rng.choice([0, 1, 4])    # a second acquire/release cycle after a pause
             ws.append(w)
-        return {"family": "pool-engine", "max": mx, "lat": lat, "tmo": tmo, "workers": ws}
+        case = {"family": "pool-engine", "max": mx, "lat": lat, "tmo": tmo, "workers": ws}
+        if rng.random() < 0.45:
+            return case
+        return self._pool_lifecycle(rng, case)
 
+    def _pool_lifecycle(self, rng, case):
+        """the rest of the pool's life: idle-timeout closing (`idle` ticks, events really scheduled), `min_connections`
+        with warm-up processes, and acquirers that are abandoned mid-acquire (`kills`: the generator inside
+        `acquire()` is closed by a harness entity, or its entity is crashed by a real CrashNode fault so that the
+        engine drops the continuation) — during the set-up latency, while queued, after a hand-off, while holding"""
+        ws, lat, tmo = case["workers"], case["lat"], case["tmo"]
+        feats = rng.choice([["idle"], ["kill"], ["kill"], ["kill", "idle"], ["warm", "idle"], ["warm", "kill", "idle"], ["warm"]])
+        if "kill" in feats and lat == 0 and rng.random() < 0.7:
+            lat = case["lat"] = rng.choice([1, 2, 4, 8])
+        if "idle" in feats:
+            case["idle"] = rng.choice([1, 2, 4, 4, 8, 16, 64])
+        if "warm" in feats:
+            case["min"] = rng.randint(1, case["max"]) if rng.random() < 0.8 else 0
+            case["warm"] = sorted(rng.choice([[0], [0], [0, 0], [0, rng.randint(1, 8)], [rng.randint(0, 4)]]))
+            if rng.random() < 0.5:     # the workers arrive while the warm-up is still creating / just after it
+                shift = rng.randint(0, case["min"] * lat + 1)
+                for w in ws:
+                    w["at"] += shift
+        elif "idle" in feats and rng.random() < 0.3:
+            case["min"] = rng.randint(0, case["max"])
+        if "kill" in feats:
+            kills = []
+            for _ in range(rng.choice([1, 1, 2, 3])):
+                k = rng.randrange(len(ws))
+                r = rng.random()
+                if r < 0.55:      # inside the set-up window of worker k's first call (boundaries included)
+                    t = ws[k]["at"] + rng.choice([0, lat, rng.randint(0, lat), max(0, lat - 1)])
+                elif r < 0.7:     # anywhere in its waiting / holding time
+                    t = ws[k]["at"] + rng.randint(0, lat + tmo + ws[k]["hold"] + 1)
+                elif r < 0.85:    # the instant another worker gives its connection back (a hand-off not yet noticed)
+                    j = rng.randrange(len(ws))
+                    t = ws[j]["at"] + lat + ws[j]["hold"]
+                else:
+                    t = rng.randint(0, 12)
+                kills.append([t, k, rng.choice(["close", "close", "crash"])])
+            case["kills"] = sorted(kills)
+        return self._pool_restrict(case)
+
+    @staticmethod
+    def _pool_restrict(case):
+        """P1-P3 (reproduced defects of /repo, fixes/C09-pool-abandoned-waiter.md; lifted by HV_C09_POOL_LIFT=1 once the
+        patch is in the tree): a queued acquirer is never abandoned, and capacity never comes back without a
+        release (abandoned set-up, warm-up connection) while a call is queued.  Kept out of the generated inputs
+        by giving the pool room for every worker plus the warm-up (`max >= workers + min`), so that nobody queues."""
+        if POOL_LIFT or not (case.get("kills") or case.get("warm")):
+            return case
+        need = len(case["workers"]) + case.get("min", 0)
+        if case["max"] < need:
+            case["max"] = need
+        return case
 
     # ---- condition variable (with its mutex)
     def gen_cond_engine(self, rng, tier):
@@ -970,17 +1048,90 @@ class C09(core.Property):
                 return None
 
         tgt = Target("t")
-        pool = ConnectionPool("p", tgt, max_connections=case["max"], connection_timeout=case["tmo"] / 8,
-                              idle_timeout=1e7, connection_latency=ConstantLatency(case["lat"] / 8))
+        idle_ticks = case.get("idle")
+        pool = ConnectionPool("p", tgt, min_connections=case.get("min", 0), max_connections=case["max"],
+                              connection_timeout=case["tmo"] / 8, idle_timeout=1e7 if idle_ticks is None else idle_ticks / 8,
+                              connection_latency=ConstantLatency(case["lat"] / 8))
         out, pending = [], []
 
         def cnt():
             return f"a={pool.active_connections} i={pool.idle_connections} n={pool.total_connections} p={pool.pending_requests}"
 
+        def snap():
+            return (pool.active_connections, pool.idle_connections, pool.total_connections, pool.pending_requests)
+
+        def now():
+            return pool.now.nanoseconds
+
+        # deliveries to the pool entity itself: idle-timeout checks and the warm-up process
+        pool_handle = pool.handle_event
+
+        def traced_warm(gen):
+            def line(word, res):
+                out.append(f"{word} {now()} 0 res={res} {cnt()}")
+            try:
+                v = next(gen)
+            except StopIteration as e:
+                line("warm", "done")
+                return e.value
+            line("warm", "creating")
+            while True:
+                sent = yield v
+                try:
+                    v = gen.send(sent)
+                except StopIteration as e:
+                    line("warm", "done")
+                    return e.value
+                if isinstance(v, tuple):          # `yield 0.0, [idle-timeout event]`: the connection was just parked
+                    c = v[1][0].context["metadata"]["connection_id"]
+                    line("wmade", f"conn c={c}")
+                else:
+                    line("warm", "creating")
+
+        def on_pool_event(ev):
+            if ev.event_type == "_pool_idle_timeout":
+                md = ev.context["metadata"]
+                n0 = pool.total_connections
+                r = pool_handle(ev)
+                res = "closed" if pool.total_connections == n0 - 1 else ("kept" if r else "stale")
+                out.append(f"idle {now()} {md['connection_id']} {md['expected_last_used'].nanoseconds} res={res} {cnt()}")
+                return r
+            if ev.event_type == "_pool_warmup":
+                return traced_warm(pool_handle(ev))
+            return pool_handle(ev)
+
+        pool.handle_event = on_pool_event
+
         class Worker(Entity):
             def __init__(self, k, w):
                 super().__init__(f"w{k}")
                 self.k, self.w = k, w
+                self.call = None        # [cid, generator, phase] while inside acquire()
+                self.dead = False
+
+            def abandon(self):
+                """the process inside acquire() is dropped: close the generator (GeneratorExit at its yield) and
+                report what the pool's public counters did"""
+                cid, g, phase = self.call
+                self.call = None
+                if phase == "waiting" and cid not in pending:
+                    phase = "handed"
+                a0, i0, n0, p0 = snap()
+                g.close()
+                a1, i1, n1, p1 = snap()
+                res = "none"
+                if phase == "creating":
+                    if n1 == n0 - 1:
+                        res = "rollback"
+                elif phase == "waiting":
+                    if p1 == p0 - 1:
+                        res = "dequeued"
+                        pending.remove(cid)
+                elif i1 == i0 + 1:
+                    res = "idle-return"
+                elif p1 == p0 - 1 and pending:
+                    res = f"handoff c={pending.pop(0)}"
+                out.append(f"abandon {now()} {cid} res={res} {cnt()}")
 
             def cycle(self, cid, hold):
                 t = lambda: self.now.nanoseconds
@@ -996,34 +1147,62 @@ class C09(core.Property):
                     out.append(f"acq {t()} {cid} res={'waiting' if waiting else 'creating'} {cnt()}")
                     if waiting:
                         pending.append(cid)
+                    self.call = [cid, g, "waiting" if waiting else "creating"]
                     n = 0
                     while True:
                         n += 1
                         if n > SPIN_LIMIT:
                             out.append(f"hang {t()} {cid}")
-                            return []
-                        yield y
+                            return None
+                        try:
+                            yield y
+                        except GeneratorExit:
+                            # this process was dropped by the engine (its entity is down): so is the acquire() in it
+                            if self.call is not None:
+                                self.abandon()
+                            raise
+                        if self.call is None:      # abandoned by the killer while this process slept
+                            return None
+                        p0, n0 = pool.pending_requests, pool.total_connections
                         try:
                             y = next(g)
                         except StopIteration as e:
                             conn = e.value
-                            if waiting:
+                            self.call = None
+                            if waiting and cid in pending:
+                                # nobody handed it over: the first queued call helped itself to an idle connection
+                                pending.remove(cid)
+                                out.append(f"poll {t()} {cid} res=idle c={conn.id} {cnt()}")
+                            elif waiting:
                                 out.append(f"poll {t()} {cid} res=got c={conn.id} {cnt()}")
                             else:
                                 out.append(f"made {t()} {cid} res=conn c={conn.id} {cnt()}")
                             break
                         except TimeoutError:
+                            self.call = None
                             if cid in pending:
                                 pending.remove(cid)
                             out.append(f"timeout {t()} {cid} res=timeout {cnt()}")
                             return []
                         else:
-                            out.append(f"poll {t()} {cid} res=wait {cnt()}")
+                            if waiting and cid in pending and pool.pending_requests == p0 - 1 and pool.total_connections == n0 + 1:
+                                # the first queued call took a slot that came back and opens the connection itself
+                                pending.remove(cid)
+                                waiting = False
+                                self.call[2] = "creating"
+                                out.append(f"poll {t()} {cid} res=creating {cnt()}")
+                            elif waiting:
+                                out.append(f"poll {t()} {cid} res=wait {cnt()}")
+                            else:
+                                out.append(f"hang {t()} {cid}")     # a set-up never yields twice
+                                return None
                 yield hold / 8
                 evs = []
                 for _ in range(2 if self.w.get("twice") else 1):
                     pb, ib = pool.pending_requests, pool.idle_connections
-                    pool.release(conn)   # the idle-timeout event it returns is dropped: idle closing is not exercised
+                    got = pool.release(conn)
+                    if idle_ticks is not None:
+                        evs += got           # (legacy cases: the idle-timeout event is dropped, idle closing not exercised)
                     if pool.pending_requests == pb - 1 and pending:
                         res = f"res=handoff c={pending.pop(0)}"
                     elif pool.idle_connections == ib + 1:
@@ -1035,15 +1214,50 @@ class C09(core.Property):
 
             def handle_event(self, event):
                 evs = yield from self.cycle(2 * self.k, self.w["hold"])
-                if "again" in self.w:
+                if evs is not None and "again" in self.w:
                     yield (self.w["again"] / 8, evs)
                     evs = yield from self.cycle(2 * self.k + 1, self.w["hold"])
-                return evs
+                return evs or []
 
         workers = [Worker(k, w) for k, w in enumerate(case["workers"])]
-        sim = Simulation(end_time=Instant(END_NS), entities=[pool, tgt, *workers])
+
+        class Killer(Entity):
+            def handle_event(self, event):
+                wk = workers[event.context["metadata"]["k"]]
+                if wk.call is not None:
+                    wk.abandon()
+                return []
+
+        class Starter(Entity):
+            def handle_event(self, event):
+                return [pool.warmup()]
+
+        killer, starter = Killer("killer"), Starter("starter")
+        faults = None
+        crashes = [(t, k) for t, k, mode in case.get("kills", []) if mode == "crash" and 0 <= k < len(workers)]
+        if crashes:
+            from happysimulator.faults import CrashNode, FaultSchedule
+            faults = FaultSchedule()
+            for t, k in crashes:
+                faults.add(CrashNode(f"w{k}", at=t / 8))
+        end_ns = END_NS
+        if idle_ticks is not None:
+            # a pool at `min_connections` re-arms its idle checks for ever: stop a few idle periods after the last
+            # moment a worker can still be busy
+            ws_ = case["workers"]
+            busy = max([w["at"] for w in ws_] + [0]) + 2 * (case["lat"] + case["tmo"] + max([w["hold"] for w in ws_] + [0]) + 4)
+            end_ns = (busy + max(case.get("warm", [0]) + [0]) + case.get("min", 0) * case["lat"] + 3 * idle_ticks + 8) * TICK
+        sim = Simulation(end_time=Instant(end_ns), entities=[pool, tgt, killer, starter, *workers],
+                         **({"fault_schedule": faults} if faults is not None else {}))
+        for t in case.get("warm", []):
+            sim.schedule(Event(time=Instant(t * TICK), event_type="warm", target=starter))
         for wk in workers:
             sim.schedule(Event(time=Instant(wk.w["at"] * TICK), event_type="go", target=wk))
+        for t, k, mode in case.get("kills", []):
+            if mode == "close" and 0 <= k < len(workers):
+                ev = Event(time=Instant(t * TICK), event_type="kill", target=killer)
+                ev.add_context("k", k)
+                sim.schedule(ev)
         sim.run()
         out.append(f"fin 0 blocked={ids(pending)} {cnt()}")
         return out
@@ -1233,8 +1447,8 @@ class C09(core.Property):
         if fam == "pool-engine":
             impl = self._impl_out(case)
             if impl and impl[0].startswith("IMPL-"):
-                return (f"pool {case['max']} 1", [])
-            return (f"pool {case['max']} 1", [self._schedule_line(l) for l in impl])
+                return (f"pool {case['max']} 1 {case.get('min', 0)}", [])
+            return (f"pool {case['max']} 1 {case.get('min', 0)}", [self._schedule_line(l) for l in impl])
         if fam in ("sync-direct", "sync-engine"):
             prim = case["prim"]
             hdr = {"mutex": "mutex", "sem": f"sem {case['param']}", "rw": f"rw {case['param']}",
@@ -1265,7 +1479,7 @@ class C09(core.Property):
         if fam == "cond-engine":
             return ("judge-cond engine", list(impl_out))
         if fam == "pool-engine":
-            return (f"judge-pool {case['max']} {case['tmo'] * TICK}", list(impl_out))
+            return (f"judge-pool {case['max']} {case['tmo'] * TICK} {case.get('min', 0)} {case.get('idle', 80_000_000) * TICK}", list(impl_out))
         if fam in ("sync-direct", "sync-engine"):
             mode = "engine" if fam == "sync-engine" else "direct"
             prim = case["prim"]
@@ -1281,6 +1495,9 @@ class C09(core.Property):
             return json.dumps(case, sort_keys=True)
         if any("res=waiting" in l for l in impl_out):
             return json.dumps(case, sort_keys=True)
+        if case["family"] == "pool-engine" and any(l.startswith("abandon ") and "res=none" not in l or "res=closed" in l or l.startswith("wmade ")
+                                                   for l in impl_out):
+            return json.dumps(case, sort_keys=True)
         if case["family"] == "conc-direct" and any(" refused " in l for l in impl_out):
             return json.dumps(case, sort_keys=True)
         return None
@@ -1288,6 +1505,9 @@ class C09(core.Property):
     def shrink(self, case):
         if case["family"] in c09_extra.FAMILIES:
             yield from c09_extra.shrink(case)
+            return
+        if case["family"] == "pool-engine":
+            yield from self._pool_shrink(case)
             return
         key = "ops" if "ops" in case else "workers"
         xs = case[key]
@@ -1301,9 +1521,53 @@ class C09(core.Property):
                     yield cand
             step //= 2
 
+    def _pool_shrink(self, case):
+        """drop a worker (kills keep pointing at the same workers), a kill, a warm-up, the idle timeout, min_connections"""
+        ws = case["workers"]
+        for i in range(len(ws)):
+            if len(ws) > 1:
+                c = json.loads(json.dumps(case))
+                del c["workers"][i]
+                if "kills" in c:
+                    c["kills"] = [[t, k - (k > i), m] for t, k, m in c["kills"] if k != i]
+                yield self._pool_restrict(c)
+        for key in ("kills", "warm"):
+            for i in range(len(case.get(key, []))):
+                c = json.loads(json.dumps(case))
+                del c[key][i]
+                yield self._pool_restrict(c)
+        for key in ("idle", "min"):
+            if key in case:
+                c = json.loads(json.dumps(case))
+                del c[key]
+                yield self._pool_restrict(c)
+        for i, w in enumerate(ws):
+            for key in ("twice", "again"):
+                if key in w:
+                    c = json.loads(json.dumps(case))
+                    del c["workers"][i][key]
+                    yield c
+
     def mutate(self, case, rng):
         if case["family"] in c09_extra.FAMILIES:
             return c09_extra.mutate(case, rng)
+        if case["family"] == "pool-engine" and (case.get("kills") or case.get("warm") or "idle" in case):
+            c = json.loads(json.dumps(case))
+            r = rng.random()
+            if r < 0.4 and c.get("kills"):
+                kl = rng.choice(c["kills"])
+                kl[0] = max(0, kl[0] + rng.choice([-2, -1, 1, 2]))
+                if rng.random() < 0.3:
+                    kl[2] = "crash" if kl[2] == "close" else "close"
+            elif r < 0.6:
+                w = rng.choice(c["workers"])
+                w["at"] = max(0, w["at"] + rng.choice([-1, 1, 2]))
+            elif r < 0.8:
+                rng.choice(c["workers"])["hold"] = rng.choice([0, 1, 2, 4, 8])
+            else:
+                c.setdefault("kills", []).append([rng.randint(0, 12), rng.randrange(len(c["workers"])), rng.choice(["close", "crash"])])
+                c["kills"].sort()
+            return self._pool_restrict(c)
         key = "ops" if "ops" in case else "workers"
         xs = [json.loads(json.dumps(x)) for x in case[key]]
         if not xs:
@@ -1365,6 +1629,13 @@ THEOREMS: list[str] = [
     "HappyModel.C09.condition_trace_satisfies_spec",
     "HappyModel.C09.pool_trace_satisfies_spec",
     "HappyModel.C09.pool_trace_satisfies_spec_distinct",
+    "HappyModel.C09.pool_no_leak_all_ops",               # active + idle + set-ups in flight = total <= max for every interleaving incl. abandonments, idle closes, warm-up
+    "HappyModel.C09.pool_abandon_returns_slot",          # an abandoned set-up gives exactly its reserved slot back
+    "HappyModel.C09.pool_head_helps_itself",             # capacity that came back without a release is taken by the first queued call at its next poll
+    "HappyModel.C09.pool_abandoned_waiter_leaves",       # an abandoned queued call is no longer in the queue
+    "HappyModel.C09.pool_abandoned_handoff_passed_on",   # a connection handed to an abandoned call goes to the next waiter / the idle list
+    "HappyModel.C09.pool_idle_close_sound",              # only an idle connection, in the idle session its timer was armed for, never below min, no holder loses one
+    "HappyModel.C09.pool_warmup_stops_at_min",
     "HappyModel.C09.limiter_trace_satisfies_spec",
     "HappyModel.C09.limiter_trace_satisfies_spec_constructed",
     # barrier / condition clauses
